@@ -30,9 +30,12 @@
    insert_common_part, [vsrc] / the doc in [sug]: the document the call that
    produced the published verdict / suggestion was made with.
 
-   [fx] selects the variant: false = the code as it is; true = with the
-   repair proposed in fixes/C15-noop-completion-selected.patch (the single
-   no-op completion is only dropped while nothing is selected). *)
+   [fx] : true = the code as it is now (since /repo commit 8bc6590, "a
+   completion that changes nothing was deleted from the menu after the user
+   had selected it": the single no-op completion is only dropped while nothing
+   is selected); false = the behaviour at the pinned snapshot, kept only for
+   the `_pinned` theorems.  Configurations are built with [current] (what
+   run_C15 and every headline theorem use) or [pinned]. *)
 From Coq Require Import ZArith List Bool.
 From PTK Require Import Lib.Sx Lib.Py.
 Import ListNotations.
@@ -78,6 +81,11 @@ Record state := mkst {
   ccos : list ccoro;               (* completers suspended in the generator *)
   vcos : list doc;                 (* validators suspended in validate_async *)
   scos : list doc }.               (* suggesters suspended in get_suggestion_async *)
+
+(* the code as it is / as it was at the pinned snapshot; the [fx] field of
+   the argument is ignored *)
+Definition current (c : config) : config := mkcfg (cwt c) (vwt c) (hsug c) (maxn c) true.
+Definition pinned (c : config) : config := mkcfg (cwt c) (vwt c) (hsug c) (maxn c) false.
 
 Definition init (c : config) (t : str) (p : Z) : state :=
   mkst c t p None 0 None None 0 [] false false false [] [] [].
@@ -537,10 +545,10 @@ Definition dec_label (x : sx) : option label :=
 
 Definition dec_cfg (x : sx) : option config :=
   match x with
-  | L [a; b; c; A m; f] =>
-      match as_bool a, as_bool b, as_bool c, as_bool f with
-      | Some a, Some b, Some c, Some f => Some (mkcfg a b c m f)
-      | _, _, _, _ => None
+  | L [a; b; c; A m] =>
+      match as_bool a, as_bool b, as_bool c with
+      | Some a, Some b, Some c => Some (mkcfg a b c m true)
+      | _, _, _ => None
       end
   | _ => None
   end.
